@@ -441,7 +441,20 @@ def classify(tr, line, act, why):
         return "collect:I-PDU-without-N(R)-after-close:EncodeError->link-disruption"
     if kind == "inv":
         return "inv:%s@%s" % (",".join(why[1]), act)
-    return "%s@%s:%s" % (kind, act, tr["id"])
+    # canonical: failing clause + action + what the real step did differently (never the trace id / seed)
+    detail = ""
+    if kind == "result" and act == "Collect":
+        got = [p["t"] for p in ev.get("frame", [])]
+        exp = [p["t"] for p in why[1]] if isinstance(why[1], (list, tuple)) else why[1]
+        detail = ":frame-kinds-got=%s-expected=%s" % ("+".join(got) or "SYMM", "+".join(exp) if isinstance(exp, list) else exp)
+        if got == exp:
+            detail = ":same-kinds-different-fields(N(S)/N(R)/len/order)"
+    elif kind == "result":
+        detail = ":got=%s-expected=%s" % (ev.get("res"), why[1])
+    elif kind == "post" and isinstance(why[1], dict):
+        diff = sorted(k for k in why[1] if why[1][k] != ev["post"].get(k))
+        detail = ":fields=" + ",".join(diff)
+    return "%s@%s%s" % (kind, act, detail)
 
 
 def replay(rep, args):
